@@ -550,4 +550,154 @@ Section FileBytes.
     - lia.
     - unfold fset. apply alookup_aset_same. exact bytes_eqb_eq.
   Qed.
+
+  Lemma load_all_app : forall src did l1 l2 chunks,
+      load_all D dlen dsub cs src did (l1 ++ l2) = Some chunks ->
+      exists c1 c2, chunks = c1 ++ c2 /\ load_all D dlen dsub cs src did l1 = Some c1 /\
+                    load_all D dlen dsub cs src did l2 = Some c2.
+  Proof.
+    induction l1 as [|m l1 IH]; intros l2 chunks H; simpl in *.
+    - exists [], chunks. auto.
+    - destruct (load_chunk D dlen dsub cs src m) as [d|]; [|discriminate].
+      destruct (load_all D dlen dsub cs src did (l1 ++ l2)) as [r|] eqn:E; [|discriminate].
+      injection H as H; subst chunks. destruct (IH l2 r E) as [c1 [c2 [A [B C]]]].
+      exists ((set_did did m, d) :: c1), c2. rewrite B. subst r. auto.
+  Qed.
+
+  (* loading the chunks of one file gives the ideal chunks of that file *)
+  Lemma load_file : forall src did path f fsize (g : nat -> cmeta) (l : list nat) chunks,
+      (forall k, c_path (g k) = path /\ c_fcid (g k) = N.of_nat k /\
+                 c_size (g k) = (if N.of_nat k =? chunk_count cs fsize - 1
+                                 then fsize - (chunk_count cs fsize - 1) * cs else cs)) ->
+      alookup bytes_eqb path src = Some f ->
+      load_all D dlen dsub cs src did (map g l) = Some chunks ->
+      map proj chunks = map (ideal path f fsize) l.
+  Proof.
+    intros src did path f fsize g. induction l as [|k l IH]; intros chunks Hg Hl H; simpl in H.
+    - injection H as H; subst. reflexivity.
+    - destruct (Hg k) as [G1 [G2 G3]].
+      unfold load_chunk in H. rewrite G1, Hl, G2, G3 in H.
+      destruct (_ <=? dlen f); [|discriminate].
+      destruct (load_all D dlen dsub cs src did (map g l)) as [r|] eqn:E; [|discriminate].
+      injection H as H; subst chunks. simpl. rewrite (IH r Hg Hl eq_refl). f_equal.
+      unfold proj, ideal. simpl. rewrite G1, G2. reflexivity.
+  Qed.
+
+  Lemma load_split_file : forall src did msg path f fsize start sf n chunks,
+      alookup bytes_eqb path src = Some f ->
+      load_all D dlen dsub cs src did (map (set_count n) (split_file cs msg path fsize start sf)) = Some chunks ->
+      map proj chunks = map (ideal path f fsize) (seq 0 (N.to_nat (chunk_count cs fsize))).
+  Proof.
+    intros src did msg path f fsize start sf n chunks Hl H.
+    rewrite split_file_eq, map_map in H.
+    eapply load_file; [|exact Hl|exact H].
+    intro k. simpl. auto.
+  Qed.
+
+  (* the files of a message as the receiver will hold them *)
+  Fixpoint written (files : list (sfile * D)) (acc : dir D) : dir D :=
+    match files with
+    | [] => acc
+    | (sf, f) :: r => written r (fset (path_base (sf_path sf)) (dsub f 0 (sf_size sf)) acc)
+    end.
+
+  Lemma load_ext_files : forall src did msg n (files : list sfile) (fs : list D) start chunks acc,
+      Forall2 (fun sf f => alookup bytes_eqb (sf_path sf) src = Some f /\ 0 < sf_size sf /\ sf_size sf <= dlen f /\
+                           bad_name (path_base (sf_path sf)) = false) files fs ->
+      load_all D dlen dsub cs src did (map (set_count n) (split_files cs msg files start)) = Some chunks ->
+      replay_p acc (map proj chunks) = Some (written (combine files fs) acc).
+  Proof.
+    intros src did msg n files fs. revert fs.
+    induction files as [|sf files IH]; intros fs start chunks acc F H.
+    - inversion F; subst. simpl in H. injection H as H; subst. reflexivity.
+    - inversion F as [|? f ? fs' [Hl [Hp [Hle Hb]]] F']; subst. simpl split_files in H. rewrite map_app in H.
+      destruct (load_all_app _ _ _ _ _ H) as [c1 [c2 [E [L1 L2]]]]. subst chunks.
+      rewrite map_app, replay_p_app.
+      rewrite (load_split_file _ _ _ _ _ _ _ _ _ _ Hl L1).
+      rewrite (file_replay (sf_path sf) f (sf_size sf) acc Hp Hle Hb).
+      simpl combine. simpl written. eapply IH; eauto.
+  Qed.
+
+  (* sender_chunks_replay_to_source: whatever the file mode sender emits for a message
+     whose files exist with (at least) the announced sizes replays, at the receiver, to
+     exactly the announced prefix of each source file under its base name - the whole
+     file when the announced size is the file's length *)
+  Lemma sender_replay_proved : forall src did msg chunks fm (fs : list D),
+      send_snapshot D dlen dsub cs did src msg = Some chunks ->
+      alookup bytes_eqb (m_path msg) src = Some fm -> m_fsize msg <= dlen fm ->
+      bad_name (path_base (m_path msg)) = false ->
+      Forall2 (fun sf f => alookup bytes_eqb (sf_path sf) src = Some f /\ 0 < sf_size sf /\ sf_size sf <= dlen f /\
+                           bad_name (path_base (sf_path sf)) = false) (m_files msg) fs ->
+      replay D dapp [] chunks =
+      Some (written (combine (m_files msg) fs) [(path_base (m_path msg), dsub fm 0 (m_fsize msg))]).
+  Proof.
+    intros src did msg chunks fm fs H Hl Hle Hb F.
+    unfold send_snapshot in H. destruct (get_chunks cs msg) as [metas|] eqn:G; [|discriminate].
+    destruct (get_chunks_count cs cs_pos msg metas G) as [_ [Hm _]].
+    unfold get_chunks in G. destruct (_ || _); [discriminate|]. injection G as G. subst metas.
+    rewrite map_app in H. destruct (load_all_app _ _ _ _ _ H) as [c1 [c2 [E [L1 L2]]]]. subst chunks.
+    rewrite replay_proj, map_app, replay_p_app.
+    rewrite (load_split_file _ _ _ _ _ _ _ _ _ _ Hl L1).
+    rewrite (file_replay (m_path msg) fm (m_fsize msg) [] Hm Hle Hb).
+    eapply load_ext_files; eauto.
+  Qed.
 End FileBytes.
+
+(* ---------- byte lists satisfy the slicing law ---------- *)
+Definition bytes_sub (l : bytes) (off n : N) : bytes := firstn (N.to_nat n) (skipn (N.to_nat off) l).
+
+Lemma firstn_skipn_app : forall (A : Type) (n m : nat) (x : list A),
+    firstn n x ++ firstn m (skipn n x) = firstn (n + m) x.
+Proof.
+  induction n as [|n IH]; intros m x; simpl; auto.
+  destruct x as [|a x]; simpl.
+  - rewrite firstn_nil. reflexivity.
+  - rewrite IH. reflexivity.
+Qed.
+
+Lemma skipn_add : forall (A : Type) (a n : nat) (x : list A), skipn (a + n) x = skipn n (skipn a x).
+Proof.
+  induction a as [|a IH]; intros n x; simpl; auto.
+  destruct x as [|y x]; simpl; auto. destruct n; reflexivity.
+Qed.
+
+Lemma bytes_sub_app : forall (f : bytes) a n m, a + n + m <= nlen f ->
+    bytes_sub f a n ++ bytes_sub f (a + n) m = bytes_sub f a (n + m).
+Proof.
+  intros f a n m _. unfold bytes_sub. rewrite !N2Nat.inj_add.
+  rewrite skipn_add. apply firstn_skipn_app.
+Qed.
+Lemma bytes_sub_all : forall f : bytes, bytes_sub f 0 (nlen f) = f.
+Proof. intro f. unfold bytes_sub, nlen. rewrite Nat2N.id. simpl. apply firstn_all. Qed.
+
+Lemma split_covers_exactly_full :
+  (forall cs, 0 < cs -> forall msg,
+      (get_chunks cs msg = None <-> m_fsize msg = 0 \/ exists f, In f (m_files msg) /\ sf_size f = 0) /\
+      (forall l, get_chunks cs msg = Some l ->
+         exists seg0 segs,
+           l = seg0 ++ concat segs /\
+           seg_ok cs (m_path msg) (m_fsize msg) None (map (set_count 0) seg0) /\
+           Forall2 (fun seg f => seg_ok cs (sf_path f) (sf_size f) (Some f) (map (set_count 0) seg)) segs (m_files msg) /\
+           mids_from 0 l /\ Forall (fun m => c_count m = nlen l) l)) /\
+  (forall bs, 0 < bs -> forall n,
+      covers 0 (block_ranges bs n) n /\
+      nlen (block_ranges bs n) = block_count bs n /\
+      Forall (fun r => 1 <= snd r <= bs) (block_ranges bs n) /\
+      (n mod bs = 0 -> Forall (fun r => snd r = bs) (block_ranges bs n))) /\
+  (forall D dempty dapp dlen msg did (datas : list D),
+      ids_from D 0 (stream_chunks D dempty dlen msg did datas) /\
+      same_stream D did (stream_meta msg did 0 0 0) (stream_chunks D dempty dlen msg did datas) /\
+      last_only D (stream_chunks D dempty dlen msg did datas) /\
+      map snd (stream_chunks D dempty dlen msg did datas) = datas ++ [dempty] /\
+      (forall d0 r, datas = d0 :: r -> bad_name (path_base (m_path msg)) = false ->
+         replay D dapp [] (stream_chunks D dempty dlen msg did datas) =
+         Some [(path_base (m_path msg), fold_left dapp (r ++ [dempty]) d0)])).
+Proof.
+  split; [|split].
+  - intros cs Hcs msg. apply split_covers_exactly_proved. exact Hcs.
+  - intros bs Hbs n. split; [apply block_ranges_partition; exact Hbs|]. apply block_ranges_sizes. exact Hbs.
+  - intros D dempty dapp dlen msg did datas. unfold stream_chunks.
+    split; [apply stream_ids; assumption|]. split; [apply stream_same; assumption|]. split; [apply stream_last_only; assumption|].
+    split; [apply (stream_data D dempty dlen msg did datas 0)|].
+    intros d0 r E Hb. subst datas. apply (stream_replay D dempty dapp dlen msg did d0 r Hb).
+Qed.
